@@ -6,6 +6,9 @@ props=[json.loads(l) for l in open('/verif/properties.jsonl')]
 ids=[p['id'] for p in props]
 TB="trusted base: the gosym executor written for this task (validated by `gosym selftest` and by native replay of every counterexample), golang.org/x/tools/go/ssa v0.29.0, z3 4.8.12 / z3 5.1.0 / cvc5 1.0; environment stubs of DESIGN.md §3.6; bounds as listed in the evidence file"
 checks={
+ "C01": dict(level="model_checking", ref="§5 C01",
+   text="The real randomUint32n/randomUint32/BigEndian.Uint32 are executed symbolically with the bound n (all 2^32-1 values) and every raw source byte as SMT variables. The oracle is the definition of the uniform threshold-rejection sampler (threshold = largest multiple of n not exceeding 2^32-1, introduced by its defining property, not by the code's formula); acceptance, redraw and residue are asserted per path, and the counting facts (more than half accepted, [0,T) in bijection with [0,T/n) x [0,n)) are discharged as QF_NIA lemmas for every n. The rejection loop is unrolled to a stated number of consecutive rejections, hence bounded model checking, not proof.",
+   technique="bounded symbolic execution of go/ssa + SMT (integer encoding with explicit mod 2^32 on z3 5.1/cvc5; QF_BV for the power-of-two cases), native replay"),
  "C12": dict(level="model_checking", ref="§5 C12",
    text="Bounded symbolic execution of the real Tokenize (and strings.Split/utf8 from their own SSA) with the password bytes and the index bytes as SMT variables: every Go run-time panic condition and every assertion of the specification is a solver query, so within the stated lengths the verdict covers every byte value, every kind byte and every parity - the inputs a test suite cannot enumerate. Bounded (lengths), hence model checking rather than proof.",
    technique="bounded symbolic execution of go/ssa + SMT (QF_BV), counterexamples replayed natively"),
